@@ -29,6 +29,10 @@ CHECKS = {
                   'outcome of an explicit-state reference of Go channel semantics (value identities decided by z3).', design_ref='DESIGN.md §4 C03',
              note='trusted: the reference semantics (class Ref in harness/C03/check.py), engine/jsx, acorn, z3. Fairness beyond "a woken goroutine is scheduled" is outside the claim.',
              technique='exhaustive exploration of the runtime\'s nondeterministic choices as solver-level choice variables over the real prelude + explicit-state reference model of Go channels; payload equalities by z3'),
+ 'C05': tv('14 programs that reach code only through the indirections the property lists (interfaces incl. interface method expressions, method values/expressions, embedding incl. embedded interfaces and anonymous structs, '
+           'generic instances reached through other generic code and local types in generic functions, side-effecting initialisers of unused variables, go:linkname in both import directions, another package, go/defer entry points, '
+           'function tables, types used only in assertions, error/panic values) are linked twice by the real compiler - normally and by a variant that keeps every declaration alive (one added statement, injected with go build -overlay) - '
+           'and both linked files are executed symbolically; every path of both must satisfy the same reference for all inputs.', 'DESIGN.md §4 C05'),
  'C06': tv('For every (operator, operand type, operand shape) of a generated matrix (~1650 cases quick, ~3200 thorough) the Go one-liner is compiled by the real compiler and the emitted JavaScript, '
            'with the real prelude helpers ($mul64, $div64, $shiftLeft64, $imul, ...), is executed symbolically for ALL operand values; z3 (integer encoding, with a sound 128-bit bit-vector translation as '
            'fallback) decides per path that value and panic behaviour equal the operator table of the Go specification. Full operand width except 64-bit division/remainder (operands < 2^8 quick, 2^20 thorough). '
